@@ -49,6 +49,17 @@ let run (c : s list) : s option =
   | A "valuations_empty" :: _ -> Some (e_vals clause_iter_empty)
   | A "clause_valuations_clone" :: pv :: nv :: k :: _ ->
     Some (e_outcome (fun l -> e_pair e_vals e_vals (iter_split (d_n k) l)) (clause_iter (d_pv pv) (d_n nv)))
+  | A "clause_valuations_adapters" :: pv :: nv :: k :: _ ->
+    Some (match clause_iter (d_pv pv) (d_n nv) with
+        | Ok l ->
+          let rec drop n l = if n <= 0 then l else (match l with [] -> [] | _ :: r -> drop (n - 1) r) in
+          let rest = drop (int_of_n (d_n k)) l in
+          let opt = function None -> A "N" | Some v -> L [A "S"; e_val v] in
+          let last = (match List.rev rest with [] -> None | x :: _ -> Some x) in
+          let nth1 = (match rest with _ :: x :: _ -> Some x | _ -> None) in
+          L [A "P"; A (string_of_int (List.length rest)); opt last; opt nth1; A "T"]
+        | Panic -> A "PANIC"
+        | OutOfFuel -> A "FUEL")
   | A "iter_after_end" :: x :: _ ->
     let b = d_bdd x in
     Some (match sat_valuations_iter b, path_iter b with
